@@ -244,8 +244,16 @@ def r3(ctx, prog):
               "same (finite) pixels", node=rets[0] if rets else res.node)
     mcall = [s for s in walk_no_nested(res.node) if isinstance(s, ast.Assign)
              and norm(s.targets[0]) == "model"]
-    okc = len(mcall) == 1 and norm(mcall[0].value).replace(" ", "") == \
-        "f(*mask)"
+    okc = False
+    if len(mcall) == 1 and isinstance(mcall[0].value, ast.Call):
+        mc = mcall[0].value
+        star = len(mc.args) == 1 and isinstance(mc.args[0], ast.Starred) \
+            and norm(mc.args[0].value) == "mask" and not mc.keywords
+        fn_ = mc.func
+        if isinstance(fn_, ast.Name):
+            fn_ = _resolve_local(res.node, fn_)
+        okc = star and isinstance(fn_, ast.Call) and \
+            norm(fn_.func).split(".")[-1] == "ntwodgaussian_lmfit"
     ctx.check("C01-R3", res, "model evaluated at *mask", okc,
               "the model must be evaluated at the mask's (row, col) indices",
               node=mcall[0] if mcall else res.node)
